@@ -54,6 +54,14 @@ def gen_case(rng: Rng, i: int, tier: str):
         if tier == "thorough" and r.chance(0.5):
             st["line_p"] = r.pick([0.005, 0.02, 0.1])  # line-level pre-emption inside py7zr frames
         scheds.append(st)
+    rm = rng.sub("many")
+    if rm.chance(0.015):
+        # hundreds of members: more than a thousand events, a backlog at close() well beyond any queue bound
+        arc = {"sessions": [{"mode": "w", "chain": [{"id": "COPY"}], "password": None, "header": "raw", "header_via": "ctor",
+                             "ops": [{"op": "writestr", "name": "m%03d" % k, "content": {"tex": "text", "len": 9, "seed": k}, "as": "bytes"} for k in range(rm.pick([350, 420]))]}],
+               "knobs": {"block": 32768, "chunk": 128000000, "bufsize": 8192}, "rng": rm.randrange(1 << 30), "target": "path"}
+        return {"archive": arc, "call": {"op": "extractall"}, "open": rm.pick(["path", "stream"]), "handler_ms": rm.pick([10, 10, 1]), "clock_jump": 0.0,
+                "scheds": [{"kind": "random", "stay": 0.5, "seed": rm.randrange(1 << 30)}], "cb_shape": "plain", "sink": "factory"}
     return {"archive": arc, "call": op, "open": r.pick(["path", "stream", "anon"]), "handler_ms": r.wpick([(4, 0), (2, 1), (2, 10), (2, 50)]),
             "clock_jump": r.pick([0.0, 0.3, 1.5]), "scheds": scheds,
             # what else the callback object is: a plain object, a progress tracker that is also a sized collection of the
@@ -158,8 +166,9 @@ def _one(py7zr, built, case, strat, res):
                 except Exception as e:
                     out["close_error"] = e
                 phase["p"] = "after_close"
-                # quiescence window: let whatever is still alive run for 5 simulated seconds
-                sched.block(lambda: False, timeout=5.0, tag=("quiesce",))
+                # quiescence window: let whatever is still alive run for 5 simulated seconds plus the time the handlers need for
+                # what was still queued when close() was called (so that a late delivery is seen as late, not as missing)
+                sched.block(lambda: False, timeout=5.0 + 1.5 * out["queued_at_close"] * d, tag=("quiesce",))
             finally:
                 pass
         except Deadlock as e:
@@ -263,6 +272,8 @@ def run_case(case):
         cls = {"open": case["open"], "multi": built.nfolders > 1, "call": case["call"]["op"], "handler_ms": case["handler_ms"], "backlog_class": bclass,
                "cb_shape": case.get("cb_shape", "plain"), "sink": case.get("sink", "factory")}
         cls.update(gen.dep_flags([s.get("chain") for s in case["archive"]["sessions"]], None, None))
+        # what close() did: the listed backlog finding is about its InternalError after the 1 s join, nothing else
+        cls["close_error"] = type(o["close_error"]).__name__ if o["close_error"] is not None else None
         if o["dead"] is not None:
             res["violations"].append({"fp": {"oracle": "deadlock", "site": "scheduler", "class": cls}, "detail": "%s (strategy %r)" % (o["dead"], strat)})
         else:
